@@ -81,6 +81,7 @@ def generate(rng: random.Random, tier: str) -> dict:
             ev["token"] = rng.choice(["right", "right", "right", "foreign", "none", "int"])
             ev["fields"] = rng.choice(["all", "all", "noprogress", "nototal", "nomessage", "only_token"])
             ev["p"] = rng.choice([0, 0.25, 1, 50, 99.5])
+            ev["total"] = rng.choice([100.0, 100.0, 0, 0.0, 1, 7.5])
         if kind == "match_error":
             ev["code"] = rng.choice([-32603, -32000, 42])
         events.append(ev)
@@ -254,7 +255,7 @@ def execute(scn: dict) -> dict:
             if k == "other_response":
                 return {"jsonrpc": "2.0", "id": "other-" + m, "result": {"marker": m}}
             if k == "progress":
-                p = {"progress": ev["p"], "total": 100.0, "message": "msg-" + m}
+                p = {"progress": ev["p"], "total": ev.get("total", 100.0), "message": "msg-" + m}
                 f = ev["fields"]
                 if f == "noprogress":
                     del p["progress"]
@@ -569,7 +570,7 @@ def execute(scn: dict) -> dict:
         def args_ok(d, args):
             p = d["data"]["params"]
             return ((args[0] == p.get("progress", 0) or (("progress" not in p) and args[0] in (0, None)))
-                    and args[1] == p.get("total") and args[2] == p.get("message"))
+                    and args[1] == p.get("total") and (args[1] is None) == (p.get("total") is None) and args[2] == p.get("message"))
 
         seq = sorted(must + may, key=lambda d: d["eseq"])
         bad = None
